@@ -178,7 +178,10 @@ def rule_positions_from_parser(chk, rid):
                         for s in body_walk(fn):
                             if isinstance(s, ast.Assign) and U(s.targets[0]) == pos.id:
                                 src = s.value
-                    ok = U(src) == f"Position.from_loc({params(fn)[1]}, {params(fn)[0]})"
+                    flp = [a.arg for a in repo.func(PARSER, "Position.from_loc").args.args if a.arg not in ("cls", "self")]
+                    from ..core import arg_or_kw
+                    ok = isinstance(src, ast.Call) and call_name(src) == "Position.from_loc" and len(flp) >= 2 \
+                        and U(arg_or_kw(src, 0, flp[0])) == params(fn)[1] and U(arg_or_kw(src, 1, flp[1])) == params(fn)[0]
                 chk.ob(rid, f"{PARSER}.{fname}", ok, f"{c.func.id} gets position=Position.from_loc(loc, s)", c, m, key=f"pos:{c.func.id}")
     chk.floor(rid, n, 4, "node constructions in parse actions")
     fl = repo.func(PARSER, "Position.from_loc")
